@@ -239,6 +239,38 @@ theorem C02_child_read_in_any_history (fams : List Fam) (history : List SStep)
     (fun j o' hj ho' hin => flat_disjoint s.objs j oi o' o hok.nodup ho' ho hj id hin hmem)
     hv (store_wf hw hst) (hw.objs o (List.mem_of_getElem? ho)) hk hns hr
 
+/-- C02, THE CONVERSE OF ATTACHMENT ("a handle whose position was reassigned, removed or changed kind
+is detached"), in any reachable state: the user still holds a nested collection whose identity is
+in no object's tree any more (it lives on among the detached nodes and stays usable).  A mutation
+through it loads and saves its root like any other call, and that is ALL the backend sees: the
+resource ends up holding the merged content of the root — exactly what a bare load-and-save would
+leave.  Nothing of the operation reaches the backend; no other position is disturbed. -/
+theorem C02_detached_handle_write_does_not_reach_backend (fams : List Fam) (history : List SStep)
+    (oi id : Nat) (o : Obj) (d : J) (t0 : T) (op : Op) :
+    let s := srun (State.empty fams) history
+    s.objs[oi]? = some o → s.store o.res = some d → s.ownerOf id = some oi →
+    id ∉ flatIds s.objs → s.detached.findSome? (fun p => Tr.find id p.2) = some t0 →
+    (updNode (s.fam o) o.root d s.next).err = none →
+    op.skipsLoad = false → op.isRead = false → preValidate (s.fam o) t0.isDict op = none →
+    (call s (.node id) op).1.store o.res = some (updNode (s.fam o) o.root d s.next).val.toBase := by
+  intro s ho hst hown hnot hdet herr hns hm hpre
+  obtain ⟨hok, hwn⟩ := srun_ownOK history _ (empty_idOK fams) (empty_ownOK fams)
+  exact call_detached_refines s oi id o d t0 op ho hst hown hok hnot (lt_next_of_owner hwn hown) hdet herr hns hm hpre
+
+/-- non-vacuity: a child handle is cut off by an outside rewrite that turns its position into a
+scalar; a write through it afterwards leaves the backend with the outside writer's content -/
+example :
+    let fam : Fam := ⟨[.requireStringKey, .jsonFormat], [.requireStringKey, .jsonFormat]⟩
+    let d0 : J := .dict () [(.s "a", .dict () [(.s "k", .leaf (.int 1))])]
+    let d1 : J := .dict () [(.s "a", .leaf (.int 5))]
+    let s := srun (State.empty [fam]) [.openObj true 0 (some d0), .ext 0 d1, .call (.root 0) (.dRead .len)]
+    decide (1 ∉ flatIds s.objs) = true ∧
+    (s.detached.findSome? (fun p => Tr.find 1 p.2)).isSome = true ∧ s.ownerOf 1 = some 0 ∧
+    (match (call s (.node 1) (.dSetitem (.s "q") (.leaf (.int 7)))).1.store 0 with
+     | some x => Tr.same x d1
+     | none => false) = true := by
+  decide
+
 /-- non-vacuity of attachment: a handle two levels down (dict inside a list inside the root dict)
 survives a reload that rewrites scalars around it, adds and removes keys -/
 example :
